@@ -81,6 +81,29 @@ def arr_desc(a):
     return dict(shape=list(a.shape), hex=[C.fhex(v) for v in np.asarray(a, float).ravel()[:3000]])
 
 
+def brute_iso(pos, f, edges, est):
+    """independent oracle (numpy): all pairs j<k, half-open bins, per-field NaN skipping, documented formulas"""
+    n = pos.shape[1]
+    iu = np.triu_indices(n, 1)
+    diff = pos[:, iu[0]] - pos[:, iu[1]]
+    d = np.sqrt((diff ** 2).sum(axis=0))
+    nb = len(edges) - 1
+    S = np.zeros(nb)
+    N = np.zeros(nb, dtype=np.int64)
+    for m in range(f.shape[0]):
+        df = f[m, iu[1]] - f[m, iu[0]]
+        ok = ~np.isnan(df)
+        inc = df ** 2 if est == "matheron" else np.sqrt(np.abs(df))
+        for i in range(nb):
+            sel = ok & (d >= edges[i]) & (d < edges[i + 1])
+            N[i] += int(sel.sum())
+            S[i] += float(inc[sel].sum())
+    n1 = np.maximum(N, 1)
+    if est == "matheron":
+        return S / (2.0 * n1), N
+    return 0.5 * (S / n1) ** 4 / (0.457 + 0.494 / n1 + 0.045 / n1 ** 2), N
+
+
 class Capture:
     """records the arguments vario_estimate hands to its kernel wrappers (no change of behaviour)"""
 
@@ -533,6 +556,14 @@ def probes(ctx, rng, gs, reps, thorough):
                         A3 = P.ve(tuple(pos[:, keep]), sel(fall[:, keep]), base, bin_edges=be, estimator=est)
                         P.same("union of mask argument, field mask, NaN and no_data", "missing:union", A3, B,
                                dict(base, m1=arr_desc(m1), m2=arr_desc(m2), m3=arr_desc(m3), m4=arr_desc(m4), no_data=nd), exact=True)
+                        if be is not None and B is not None and not near_threshold(pos, e):
+                            bg, bn = brute_iso(pos, fall, e, est)       # every point kept, missing values marked NaN
+                            if not (np.array_equal(bn, B[2]) and rel_close(bg, B[1], atol=1e-300)):
+                                ctx.violation("probe: missing values vs independent pair enumeration",
+                                              "vario_estimate with mask argument, field masks, NaN and no_data differs from enumerating all "
+                                              "pairs of the values that are present",
+                                              dict(base, m1=arr_desc(m1), m2=arr_desc(m2), m3=arr_desc(m3), m4=arr_desc(m4), no_data=nd,
+                                                   expected=[bg.tolist(), bn.tolist()], got=[B[1].tolist(), B[2].tolist()]), key="missing:brute")
             # multi-field stack with per-field NaNs: counts add up, Matheron sums add up
             if nf > 1:
                 fp = f.copy(); fp[rng.random(size=f.shape) < 0.25] = np.nan
